@@ -785,17 +785,19 @@ def run_shard(tier, seed, shard, nshards, res):
             block_commit_waiting(dc, sc, res, rng, 'c06 commit waiting seed=%d shard=%d i=%d' % (seed, shard, i))
         # a block beside another thread on one shared object, all plans to the bound: 20 programs (what the other thread
         # does x block commits or aborts x values in files or not); a quick run does a sixth of the plans of the
-        # program that is this worker's turn (eight programs per run); the thorough tier also switches at function entries, the thorough tier all plans of five programs per worker
+        # program that is this worker's turn (eight programs per run); the thorough tier also switches at function entries, the thorough tier two programs per worker (one at the store gates, one with function entries as further change
+        # points; at most 2 500 plans each)
         programs = [(o, a, b) for o in ('set', 'get', 'block', 'pop', 'delitem') for a in (False, True) for b in (False, True)]
         if tier == 'quick':
             o, a, b = programs[(seed * 16 + shard) // 2 % len(programs)]
             block_plans(dc, sc, res, common.rng_for(seed, 'c06p', shard), 'c06 plans seed=%d shard=%d' % (seed, shard),
                         o, a, b, (((seed * 16 + shard) % 2) * 3 + seed % 3, 6))
         else:
-            for j in range(5):
-                o, a, b = programs[(seed * 7 + shard * 5 + j) % len(programs)]
+            for j in range(2):
+                o, a, b = programs[(seed * 7 + shard * 2 + j) % len(programs)]
                 block_plans(dc, sc, res, common.rng_for(seed, 'c06p', shard, j),
-                            'c06 plans seed=%d shard=%d j=%d' % (seed, shard, j), o, a, b, (0, 1), gates='with entries')
+                            'c06 plans seed=%d shard=%d j=%d' % (seed, shard, j), o, a, b, (0, 1), budget=2500,
+                            gates='with entries' if j else True)
         probe.reset()
         m = 40 if tier == 'quick' else 500
         for i in range(m):
